@@ -325,6 +325,9 @@ def field_text_then_children(abbr):
     return False
 
 
+# a quoted attribute value with a line break in it (listed finding: re-indented inside the quotes)
+ATTR_LINE_BREAK_RE = re.compile(r'="[^"]*[\r\n][^"]*"|=\'[^\']*[\r\n][^\']*\'')
+
 CLASS_GUARD = {
     'C12:depth-multiline-field-text-with-children': field_text_with_children,
     'C12:depth-field-text-after-block-children': field_text_then_children,
@@ -710,7 +713,7 @@ def tree_reuse_sequences(ctx):
             bad = oracle_sequence(cfgs, r[1], r[2])
         if bad:
             step, why = bad
-            ctx.property_failure('C12:tree-reuse|%s|%s' % (abbr, '|'.join(canon_cfg(c) for c in cfgs[:step + 1])),
+            ctx.property_failure('C12:cosmetic-line-break-inside-attribute-value' if ATTR_LINE_BREAK_RE.search(abbr) else 'C12:tree-reuse|%s|%s' % (abbr, '|'.join(canon_cfg(c) for c in cfgs[:step + 1])),
                                  'C12 one tree, many renderings: parse(%r) under %s, stringify of that tree under %d option set(s) '
                                  'differing in cosmetic options only: %s' % (abbr, canon_cfg(cfgs[0]), step + 1, why),
                                  {'component': 'C12', 'kind': 'tree-reuse', 'abbr': abbr, 'sequence': cfgs[:step + 1], 'why': why})
@@ -867,6 +870,8 @@ def run(ctx):
                     ctx.nontrivial((abbr, canon_cfg(cfg_a), kind))
             if bad and kind == 'depth' and cls is None and gr.get('class') and CLASS_GUARD[gr['class']](abbr):
                 cls = gr['class']
+            if bad and kind == 'cosmetic' and cls is None and ATTR_LINE_BREAK_RE.search(abbr):
+                cls = 'C12:cosmetic-line-break-inside-attribute-value'
             if bad:
                 key = cls or 'C12:%s|%s|%s|%s' % (kind, abbr, canon_cfg(cfg_a), canon_cfg(cfg_b) if cfg_b else '')
                 ctx.property_failure(key, 'C12 %s: expand(%r) under %s%s: %s' % (
